@@ -49,9 +49,12 @@ def rangesOfInclusive (l : List (Nat × Nat)) : Ranges := l.foldl (fun acc r => 
 
 def digitStd : Ranges := (lookupL Gen.gcLong Gen.decimalNumberCategory).getD []
 
+/-- `word_char()`: the base range minus the removed groups.  The removed groups are canonical
+    lists, so their union is computed by a linear merge and the difference as one complement
+    (same set as the builder's three `remove_set` calls — C10.word_def_builder) -/
 def wordStd : Ranges :=
-  Gen.wordCharRemoved.foldl (fun acc g => diffR acc ((lookupL Gen.grpAll g).getD []))
-    (addRange Gen.wordCharBase.1 (Gen.wordCharBase.2 + 1) [])
+  complR (unionSorted (complR (addRange Gen.wordCharBase.1 (Gen.wordCharBase.2 + 1) []) ::
+                       Gen.wordCharRemoved.map (fun g => (lookupL Gen.grpAll g).getD [])))
 
 def Env.std : Env :=
   { lower := fun c => (lookupN Gen.lowerTable c).getD c,
